@@ -1,7 +1,7 @@
 SPECIFICATION Spec
 CONSTANTS Level = 2
  MutDepth = 2
- WrapMuts = {"correct","droplit","L.neg","L.conn","P.neg","P.conn","dropprem","nm.shape","nm.arity","nm.vars","nm.noteq","nm.quant","nm.freevar","nm.arith"}
+ WrapMuts = {"correct","droplit","sib","L.neg","L.conn","P.neg","P.conn","dropprem","nm.shape","nm.arity","nm.vars","nm.noteq","nm.quant","nm.freevar","nm.arith"}
 INVARIANT SchemaTyped
 INVARIANT RefSound
 INVARIANT DbSound
